@@ -36,6 +36,7 @@ func init() {
 			"parentscheck folds the maximum Lamport time from 0 over every element of the parents list (idx.MaxLamport returns the larger argument) and rejects Lamport != max+1, evaluates 'created by the event's creator xor IsSelfParent' for every parent, rejects (Seq == 1) xor (SelfParent == nil), and when a self-parent exists rejects parents[0] not being it and Seq != parents[0].Seq+1; "+
 			"Checkers.Validate passes its own arguments to all three checkers and propagates each error. For every row: the edge on which the bad condition holds reaches only returns of a non-nil error (or a panic), and every accepting return is reachable only through the complementary edge (for per-parent rows: on every iteration of a complete range over all parents, whose exit dominates the accepting return). Rejecting guards that are not in the table are reported as undecided (they may narrow acceptance). "+
 			"BaseEvent.SelfParent is nil exactly on seq <= 1 or no parents and otherwise &parents[0]; IsSelfParent compares with it; the getters return their own fields. "+
+			"Loops over the parents are read as iterations (a range, or a counted loop from 0 to len of either parents list whose index is not modified in the body); temporaries defined at their declaration (`sp := e.SelfParent()`, `first := parents[0]`) stand for their defining expression. "+
 			"Not decided: the enumeration of boundary inputs itself, uint32 wrap of max+1 / Seq+1 (excluded by the limits check only for the event's own fields), Event implementations other than BaseEvent, the caller contract that the parents argument lists the events of e.Parents() in order, pos.Validators.Exists being a membership test (C12).",
 		[]string{"the parents argument of parentscheck lists exactly the events named by e.Parents(), in the same order (caller contract, enforced only by length)", "errors.New / fmt.Errorf return non-nil errors", "pos.Validators.Exists is a membership test of the current validator group"},
 		runC13)
@@ -101,10 +102,68 @@ func c13And(atoms ...string) string {
 	return strings.Join(s, " && ")
 }
 
+// c13Loop is an iteration over the parents, however it is written (core.IterationOf): a range over the
+// list, or a counted loop `for i := 0; i < len(list); i++` whose elements are list[i].
 type c13Loop struct {
-	stmt     *ast.RangeStmt
-	kind     string // "events": ranges over the parents argument; "ids": ranges over e.Parents()
+	stmt     ast.Stmt
+	body     *ast.BlockStmt
+	kind     string // "events": iterates the parents argument; "ids": iterates e.Parents()
 	key, val *types.Var
+	partial  string // non-empty: why the loop does not visit every element exactly once
+	from     int    // first index visited: 0, or 1 for `for i := 1; i < len(list); i++` (element 0 is skipped)
+}
+
+// c13Iteration recognises loop as an iteration over a collection accepted by isColl (which returns the
+// kind, "" = not that collection). Counted loops must start at 0, step by 1 up to len(collection), and
+// must not assign their index in the body; otherwise the loop is returned with `partial` set.
+func c13Iteration(f *core.FuncInfo, loop ast.Stmt, isColl func(ast.Expr) string) *c13Loop {
+	if rs, ok := loop.(*ast.RangeStmt); ok && rs.Tok != token.DEFINE && (rs.Key != nil || rs.Value != nil) {
+		return nil
+	}
+	it, ok := core.IterationOf(f, loop, func(e ast.Expr) ast.Expr { return resolveLocal(f, e) })
+	if !ok || it.Coll == nil || it.Body == nil {
+		return nil
+	}
+	kind := isColl(it.Coll)
+	if kind == "" {
+		return nil
+	}
+	l := &c13Loop{stmt: loop, body: it.Body, kind: kind, key: it.Index, val: it.Value}
+	if it.Counted {
+		if !it.FromZero {
+			l.partial = "the counted loop does not start at index 0"
+			if fs, ok := loop.(*ast.ForStmt); ok {
+				if as, ok := fs.Init.(*ast.AssignStmt); ok && len(as.Rhs) == 1 && core.IsConstInt(f.Info(), core.StripConv(f.Info(), as.Rhs[0]), 1) {
+					l.partial, l.from = "", 1
+				}
+			}
+		}
+		for _, a := range assignsToVar(f, it.Index) {
+			if it.Body.Pos() <= a.Stmt.Pos() && a.Stmt.End() <= it.Body.End() {
+				l.partial = "the loop index is modified inside the body"
+			}
+		}
+	}
+	return l
+}
+
+// c13Loops lists the iterations over accepted collections in f's own body.
+func c13Loops(f *core.FuncInfo, isColl func(ast.Expr) string) []*c13Loop {
+	var out []*c13Loop
+	f.InspectOwn(func(n ast.Node) bool {
+		switch n.(type) {
+		case *ast.RangeStmt, *ast.ForStmt:
+			if l := c13Iteration(f, n.(ast.Stmt), isColl); l != nil {
+				out = append(out, l)
+			}
+		}
+		return true
+	})
+	return out
+}
+
+func (l *c13Loop) contains(n ast.Node) bool {
+	return l.body.Pos() <= n.Pos() && n.End() <= l.body.End()
 }
 
 // c13Env resolves expressions of one checker function to role names (through objects, never text).
@@ -115,16 +174,16 @@ type c13Env struct {
 	self    bool       // ev is a *BaseEvent receiver: fields and BaseEvent methods count
 	vars    map[*types.Var]string
 	loops   []*c13Loop
-	used    map[*ast.RangeStmt]bool // loops whose variables the current fact mentions
-	alias   map[*types.Var]bool     // single-assignment local copies of ev
-	custom  core.AtomNamer          // additional role names (used by C31, which shares the table machinery)
-	retMsg  string                  // what an unclassified return means for this table (default: the checkers' wording)
+	used    map[ast.Stmt]bool   // loops whose variables the current fact mentions
+	alias   map[*types.Var]bool // single-assignment local copies of ev
+	custom  core.AtomNamer      // additional role names (used by C31, which shares the table machinery)
+	retMsg  string              // what an unclassified return means for this table (default: the checkers' wording)
 }
 
 var c13Getters = map[string]string{"Seq": "seq", "Epoch": "epoch", "Frame": "frame", "Lamport": "lamport", "Creator": "creator"}
 
 func c13NewEnv(f *core.FuncInfo, ev, parents *types.Var, self bool, errCallees ...string) *c13Env {
-	env := &c13Env{f: f, ev: ev, parents: parents, self: self, vars: map[*types.Var]string{}, used: map[*ast.RangeStmt]bool{}, alias: map[*types.Var]bool{}}
+	env := &c13Env{f: f, ev: ev, parents: parents, self: self, vars: map[*types.Var]string{}, used: map[ast.Stmt]bool{}, alias: map[*types.Var]bool{}}
 	{
 		count := map[*types.Var]int{}
 		for _, a := range assignments(f) {
@@ -138,28 +197,16 @@ func c13NewEnv(f *core.FuncInfo, ev, parents *types.Var, self bool, errCallees .
 			}
 		}
 	}
-	f.InspectOwn(func(n ast.Node) bool {
-		rs, ok := n.(*ast.RangeStmt)
-		if !ok || rs.Tok != token.DEFINE {
-			return true
-		}
-		l := &c13Loop{stmt: rs}
+	// iterations over the parents argument or over e.Parents(), written as a range or as a counted loop
+	// (the two lists have the same length behind the arity guard, so either bound visits every index)
+	env.loops = c13Loops(f, func(coll ast.Expr) string {
 		switch {
-		case parents != nil && varOf(f, rs.X) == parents:
-			l.kind = "events"
-		case env.isParentsCall(rs.X):
-			l.kind = "ids"
-		default:
-			return true
+		case parents != nil && varOf(f, coll) == parents:
+			return "events"
+		case env.isParentsCall(coll):
+			return "ids"
 		}
-		if rs.Key != nil {
-			l.key = varOf(f, rs.Key)
-		}
-		if rs.Value != nil {
-			l.val = varOf(f, rs.Value)
-		}
-		env.loops = append(env.loops, l)
-		return true
+		return ""
 	})
 	// single-assignment locals
 	count := map[*types.Var]int{}
@@ -208,7 +255,7 @@ func c13NewEnv(f *core.FuncInfo, ev, parents *types.Var, self bool, errCallees .
 			continue
 		}
 		for _, l := range env.loops {
-			if l.stmt.Body.Pos() <= a.Stmt.Pos() && a.Stmt.End() <= l.stmt.Body.End() && v.Pos() < l.stmt.Pos() && env.vars[v] == "" {
+			if l.contains(a.Stmt) && v.Pos() < l.stmt.Pos() && v != l.key && env.vars[v] == "" {
 				nMax++
 				if nMax == 1 {
 					env.vars[v] = "max"
@@ -223,6 +270,44 @@ func c13NewEnv(f *core.FuncInfo, ev, parents *types.Var, self bool, errCallees .
 
 func c13IsRange(n ast.Node) bool { _, ok := n.(*ast.RangeStmt); return ok }
 
+// res looks through temporaries: an identifier that reads a local with exactly one plain definition
+// (and no role of its own) stands for its defining expression, e.g. `sp := e.SelfParent(); if sp == nil`.
+// Locals that snapshot a location written in the function are left alone (helpers: resolveLocal rules).
+func (env *c13Env) res(e ast.Expr) ast.Expr {
+	f := env.f
+	e = ast.Unparen(e)
+	for depth := 0; depth < 5; depth++ {
+		id, ok := e.(*ast.Ident)
+		if !ok {
+			return e
+		}
+		v, _ := f.Info().ObjectOf(id).(*types.Var)
+		if v == nil || env.vars[v] != "" || v == env.ev || env.alias[v] || lhsIdents(f)[id] {
+			return e
+		}
+		d := singleDef(f, v)
+		if d == nil || readsWrittenLocation(f, d) || !c13DefinedAtDecl(f, v, d) {
+			return e
+		}
+		e = ast.Unparen(d)
+	}
+	return e
+}
+
+// c13DefinedAtDecl: the single definition d of v is its declaration (`v := d` / `var v = d`), so every
+// use of v is dominated by it (a `var v T` followed by a conditional `v = d` is not looked through).
+func c13DefinedAtDecl(f *core.FuncInfo, v *types.Var, d ast.Expr) bool {
+	for _, a := range assignments(f) {
+		if a.RHS != d {
+			continue
+		}
+		if id, ok := ast.Unparen(a.LHS).(*ast.Ident); ok && f.Info().Defs[id] == types.Object(v) {
+			return true
+		}
+	}
+	return false
+}
+
 // isEv: the expression is the event under validation.
 func (env *c13Env) isEv(e ast.Expr) bool {
 	v := varOf(env.f, e)
@@ -232,7 +317,7 @@ func (env *c13Env) isEv(e ast.Expr) bool {
 // evCall: e is a call of the named dag.Event method (or the BaseEvent method, for receivers) with no
 // arguments; returns the receiver expression.
 func (env *c13Env) evCall(e ast.Expr, method string) ast.Expr {
-	call, ok := ast.Unparen(e).(*ast.CallExpr)
+	call, ok := env.res(e).(*ast.CallExpr)
 	if !ok || len(call.Args) != 0 {
 		return nil
 	}
@@ -253,7 +338,7 @@ func (env *c13Env) isParentsCall(e ast.Expr) bool {
 		return true
 	}
 	if env.self {
-		if sel, ok := ast.Unparen(e).(*ast.SelectorExpr); ok && fieldNameOf(env.f, sel) == c13BaseT+".parents" && env.isEv(sel.X) {
+		if sel, ok := env.res(e).(*ast.SelectorExpr); ok && fieldNameOf(env.f, sel) == c13BaseT+".parents" && env.isEv(sel.X) {
 			return true
 		}
 	}
@@ -264,7 +349,7 @@ func (env *c13Env) isParentsCall(e ast.Expr) bool {
 // all parents), "p0" (the first element of the parents argument).
 func (env *c13Env) parentElem(e ast.Expr) string {
 	f := env.f
-	switch x := ast.Unparen(e).(type) {
+	switch x := env.res(e).(type) {
 	case *ast.Ident:
 		v := varOf(f, x)
 		if v == nil {
@@ -280,7 +365,7 @@ func (env *c13Env) parentElem(e ast.Expr) string {
 			}
 		}
 	case *ast.IndexExpr:
-		if env.parents == nil || varOf(f, x.X) != env.parents {
+		if env.parents == nil || varOf(f, env.res(x.X)) != env.parents {
 			return ""
 		}
 		if core.IsConstInt(f.Info(), x.Index, 0) {
@@ -307,7 +392,7 @@ func (env *c13Env) parentID(e ast.Expr) string {
 		}
 		return ""
 	}
-	switch x := ast.Unparen(e).(type) {
+	switch x := env.res(e).(type) {
 	case *ast.IndexExpr:
 		if !env.isParentsCall(x.X) {
 			return ""
@@ -347,7 +432,7 @@ func (env *c13Env) atom(e ast.Expr) string {
 	case *ast.CallExpr:
 		nm := calleeName(f, x)
 		if nm == "builtin.len" && len(x.Args) == 1 {
-			arg := ast.Unparen(x.Args[0])
+			arg := env.res(x.Args[0])
 			switch {
 			case env.parents != nil && varOf(f, arg) == env.parents:
 				return "nargs"
@@ -373,7 +458,13 @@ func (env *c13Env) atom(e ast.Expr) string {
 		}
 	case *ast.Ident:
 		if v := varOf(f, x); v != nil {
-			return env.vars[v]
+			if env.vars[v] != "" {
+				return env.vars[v]
+			}
+			// a temporary holding a nameable value (`seq := e.Seq()`, `first := parents[0]` ...)
+			if r := env.res(x); r != ast.Expr(x) {
+				return env.atom(r)
+			}
 		}
 	case *ast.SelectorExpr:
 		if env.self && env.isEv(x.X) {
@@ -387,7 +478,7 @@ func (env *c13Env) atom(e ast.Expr) string {
 
 func (env *c13Env) boolAtom(e ast.Expr) string {
 	f := env.f
-	if call, ok := ast.Unparen(e).(*ast.CallExpr); ok {
+	if call, ok := env.res(e).(*ast.CallExpr); ok {
 		nm := calleeName(f, call)
 		sel, _ := ast.Unparen(call.Fun).(*ast.SelectorExpr)
 		if nm == c13Exists && sel != nil && len(call.Args) == 1 {
@@ -431,6 +522,13 @@ func (env *c13Env) atomOf(ft core.Fact) c13Atom {
 		return c13Atom{base: "?" + exprStr(ft.Expr)}
 	}
 	if cm.R == nil {
+		// a boolean temporary stands for the comparison it was defined as
+		if r := env.res(cm.L); r != ast.Unparen(cm.L) {
+			if _, isCall := r.(*ast.CallExpr); !isCall {
+				a := env.atomOf(core.Fact{Expr: r, Truth: true})
+				return c13Atom{a.base, a.neg != (cm.Op == token.NEQ)}
+			}
+		}
 		return c13Atom{env.boolAtom(cm.L), cm.Op == token.NEQ}
 	}
 	if cm.Op == token.EQL || cm.Op == token.NEQ {
@@ -456,7 +554,7 @@ func (env *c13Env) atomOf(ft core.Fact) c13Atom {
 // altKey canonicalises one alternative (a conjunction of facts); facts mentioning the variables of two
 // different loops cannot be given a per-parent meaning.
 func (env *c13Env) altKey(facts []core.Fact) string {
-	env.used = map[*ast.RangeStmt]bool{}
+	env.used = map[ast.Stmt]bool{}
 	var atoms []string
 	for _, ft := range facts {
 		atoms = append(atoms, env.atomOf(ft).String())
@@ -574,15 +672,16 @@ func c13ErrReturns(env *c13Env, delegates ...string) []c13Ret {
 // decision table
 
 type c13Row struct {
-	name   string
-	alts   []string // accepted canonical forms of the rejected condition (one alternative of a guard each)
-	breaks string   // what is wrongly accepted when the row is missing
-	unless []string // atoms under which the row is not owed (escape edges)
-	loop   bool     // owed for every parent: guard on every iteration of a complete range over all parents
-	callee string   // call rows: the checker whose error must be propagated
-	how    string   // pass text override (tables whose "rejecting" returns are not errors)
-	args   []*types.Var
-	tag    string
+	name    string
+	alts    []string // accepted canonical forms of the rejected condition (one alternative of a guard each)
+	breaks  string   // what is wrongly accepted when the row is missing
+	unless  []string // atoms under which the row is not owed (escape edges)
+	loop    bool     // owed for every parent: guard on every iteration of a complete range over all parents
+	fromOne bool     // loop rows: owed only for elements 1.. (a relation between neighbours), so a loop from index 1 suffices
+	callee  string   // call rows: the checker whose error must be propagated
+	how     string   // pass text override (tables whose "rejecting" returns are not errors)
+	args    []*types.Var
+	tag     string
 }
 
 type c13Edge struct {
@@ -628,7 +727,7 @@ func c13BlocksFrom(from *cfg.Block, avoidEdge func(*cfg.Block, int) bool, avoidB
 
 func c13LoopBody(f *core.FuncInfo, loop ast.Stmt) *cfg.Block {
 	for _, b := range f.CFG().Blocks {
-		if b.Stmt == loop && b.Kind == cfg.KindRangeBody {
+		if b.Stmt == loop && (b.Kind == cfg.KindRangeBody || b.Kind == cfg.KindForBody) {
 			return b
 		}
 	}
@@ -757,7 +856,15 @@ func c13Table(c *core.Ctx, env *c13Env, rets []c13Ret, rows []c13Row) *c13Result
 					ls := enclosingLoop(f, e.cond.Pos())
 					l := env.loopOfStmt(ls)
 					if l == nil {
-						fail("the guard is not inside a range over the whole parents list, so it is not evaluated once per parent")
+						fail("the guard is not inside an iteration over the whole parents list, so it is not evaluated once per parent")
+						break
+					}
+					if l.partial != "" {
+						fail("the loop around the guard does not visit every element (" + l.partial + ")")
+						break
+					}
+					if l.from > 0 && !row.fromOne {
+						fail("the loop around the guard starts at index 1: the first element is never tested")
 						break
 					}
 					done, complete := loopDone(f, l.stmt)
@@ -981,7 +1088,7 @@ func runC13(c *core.Ctx) {
 		as := assignsToVar(f, maxV)
 		for i := range as {
 			a := &as[i]
-			if l := env.loopOfStmt(enclosingLoop(f, a.Stmt.Pos())); l != nil && l.stmt.Body.Pos() <= a.Stmt.Pos() {
+			if l := env.loopOfStmt(enclosingLoop(f, a.Stmt.Pos())); l != nil && l.contains(a.Stmt) {
 				fold = a
 			} else {
 				init = a
@@ -998,7 +1105,7 @@ func runC13(c *core.Ctx) {
 		c.Need(done != nil && head != nil && body != nil, "range loop structure of the Lamport fold")
 		// form of the update
 		formOK, everyIter := false, false
-		env.used = map[*ast.RangeStmt]bool{}
+		env.used = map[ast.Stmt]bool{}
 		if call := isCallTo(f, fold.RHS, c13MaxFn); call != nil && len(call.Args) == 2 && fold.Tok == token.ASSIGN {
 			a0, a1 := env.atom(core.StripConv(f.Info(), call.Args[0])), env.atom(core.StripConv(f.Info(), call.Args[1]))
 			formOK = a0 == "max" && a1 == "p.lamport" || a0 == "p.lamport" && a1 == "max"
@@ -1013,7 +1120,10 @@ func runC13(c *core.Ctx) {
 			}
 		}
 		c.Check(formOK, "Validate|maximum update", "T8 (fold)", fold.Stmt.Pos(), "the update is max = MaxLamport(max, p.Lamport()) (or the equivalent guarded assignment) for the current parent p", "the loop does not fold the maximum of the running value and the current parent's Lamport time: the Lamport guard compares with something other than the largest parent time")
-		c.Check(everyIter && complete, "Validate|maximum over every parent", "T7 Pairing (loop)", l.stmt.Pos(), "the update runs on every iteration of a range over the whole parents list, which has no early exit", "some parent can be skipped by the maximum (continue/break, or a partial range): an event with Lamport time not above that parent's is accepted")
+		if l.from > 0 {
+			l.partial = "the loop starts at index 1"
+		}
+		c.Check(everyIter && complete && l.partial == "", "Validate|maximum over every parent", "T7 Pairing (loop)", l.stmt.Pos(), "the update runs on every iteration of a loop over the whole parents list (from the first to the last element), which has no early exit", "some parent can be skipped by the maximum (continue/break, or a partial iteration"+c13Why(l.partial)+"): an event with Lamport time not above that parent's is accepted")
 		for _, e := range r.rowHit["lamport != max(parent lamports)+1"] {
 			dom, path := mustPassBlockBefore(f, done, core.Point{B: e.b, I: len(e.b.Nodes) - 1})
 			c.Check(dom, "Validate|Lamport guard after the fold", "T2 Dominates (loop)", e.cond.Pos(), "the Lamport guard is evaluated only after the loop over all parents has finished", "the Lamport guard can be evaluated before all parents are folded: "+f.DescribePath(path))
@@ -1092,8 +1202,8 @@ func runC13(c *core.Ctx) {
 			r := pt.Node().(*ast.ReturnStmt)
 			ret := c13Ret{pt: pt, stmt: r, kind: c13Unknown}
 			if len(r.Results) == 1 {
-				e := ast.Unparen(r.Results[0])
-				ret.what = exprStr(e)
+				e := env.res(r.Results[0])
+				ret.what = exprStr(r.Results[0])
 				if core.IsNil(f.Info(), e) {
 					ret.kind = c13Reject // "no self-parent"
 				} else if u, ok := e.(*ast.UnaryExpr); ok && u.Op == token.AND {
@@ -1128,17 +1238,18 @@ func runC13(c *core.Ctx) {
 			r := pt.Node().(*ast.ReturnStmt)
 			ret := c13Ret{pt: pt, stmt: r, kind: c13Unknown}
 			if len(r.Results) == 1 {
-				e := ast.Unparen(r.Results[0])
-				ret.what = exprStr(e)
+				e := genv.res(r.Results[0])
+				ret.what = exprStr(r.Results[0])
 				if tv, ok := g.Info().Types[e]; ok && tv.Value != nil && tv.Value.String() == "false" {
 					ret.kind = c13Reject
 				} else if be, ok := e.(*ast.BinaryExpr); ok && be.Op == token.EQL {
-					l, rr := ast.Unparen(be.X), ast.Unparen(be.Y)
+					// either operand order; the dereferenced pointer may be held in a temporary
+					l, rr := genv.res(be.X), genv.res(be.Y)
 					if varOf(g, l) == hp {
 						l, rr = rr, l
 					}
 					if st, ok := l.(*ast.StarExpr); ok && varOf(g, rr) == hp {
-						if rcv := genv.evCall(st.X, "SelfParent"); rcv != nil && genv.isEv(rcv) {
+						if genv.ptrAtom(st.X) == "selfParent" {
 							ret.kind = c13Accept
 							nCmp++
 						}
@@ -1176,3 +1287,10 @@ func runC13(c *core.Ctx) {
 }
 
 func c13IsValueSpec(n ast.Node) bool { _, ok := n.(*ast.ValueSpec); return ok }
+
+func c13Why(s string) string {
+	if s == "" {
+		return ""
+	}
+	return ": " + s
+}
